@@ -249,7 +249,8 @@ def call_intrinsic(ex, st, ins, name, args):
     # ---- memory intrinsics
     if nm.startswith(('llvm.memcpy.', 'llvm.memmove.')):
         dst, src, ln = args[0], args[1], args[2]
-        if not is_c(ln): raise Unsupported('symbolic memcpy length')
+        if not is_c(ln):
+            return sym_memcpy(ex, st, dst, src, ln)
         vals = ex.load(st, ArrT(ln, IntT(8)), src, 1) if ex.regions[src.rid].kind != 'ext' else [ex.load(st, IntT(8), Ptr(src.rid, addoff(src.off, k), src.hint), 1) for k in range(ln)]
         if ex.regions[dst.rid].kind == 'ext':
             for k in range(ln): ex.store(st, IntT(8), vals[k], Ptr(dst.rid, addoff(dst.off, k), dst.hint), 1)
@@ -308,6 +309,26 @@ def call_intrinsic(ex, st, ins, name, args):
     if nm.startswith(('llvm.stacksave', 'llvm.stackrestore')): return Ptr(None, 0)
     if nm.startswith('llvm.eh.typeid.for'): return fresh('typeid', 32)
     raise Unsupported('intrinsic ' + nm)
+
+
+def sym_memcpy(ex, st, dst, src, ln):
+    """memcpy with a symbolic length between local regions: byte k is copied under the guard k < len; the bound is the size of
+    the smaller region (a longer copy is an out-of-bounds access and is reported through the in-bounds obligations)"""
+    rd, rs = ex.regions[dst.rid], ex.regions[src.rid]
+    if rd.kind == 'ext' or rs.kind == 'ext': raise Unsupported('symbolic memcpy length on caller memory')
+    maxlen = min(rd.size, rs.size)
+    ex.obligs.append(('inbounds', list(st.pc), z3.ULE(ln, z3.BitVecVal(maxlen, ln.size())), 'memcpy length <= %d' % maxlen))
+    for k in range(maxlen):
+        cond = z3.UGT(ln, z3.BitVecVal(k, ln.size()))
+        ok_t, ok_f = ex.feasible(st.pc, cond)
+        if not ok_t: break
+        st.pc.append(cond)
+        v = ex.load(st, IntT(8), Ptr(src.rid, addoff(src.off, k), 1), 1)
+        pd = Ptr(dst.rid, addoff(dst.off, k), 1)
+        old = ex.load(st, IntT(8), pd, 1)
+        ex.store(st, IntT(8), ite(cond, v, old, 8) if ok_f else v, pd, 1)
+        st.pc.pop()
+    return None
 
 
 def simp_and(a, c, n):
